@@ -178,3 +178,25 @@ pub enum RemoveResult<V> {
     /// The bool indicates if this node is now underfull and needs rebalancing.
     Updated(Option<V>, bool),
 }
+
+/// Verification hooks (compiled only with `--cfg kentbeck_bplustree3_verif`).
+#[cfg(kentbeck_bplustree3_verif)]
+impl<K, V> BPlusTreeMap<K, V> {
+    /// Read-only view of the private parts: capacity, root, leaf arena, branch arena.
+    #[allow(clippy::type_complexity)]
+    pub fn verif_parts(
+        &self,
+    ) -> (
+        usize,
+        NodeRef<K, V>,
+        &CompactArena<LeafNode<K, V>>,
+        &CompactArena<BranchNode<K, V>>,
+    ) {
+        (self.capacity, self.root, &self.leaf_arena, &self.branch_arena)
+    }
+
+    /// Mutable access to the root reference (damage injection only).
+    pub fn verif_root_mut(&mut self) -> &mut NodeRef<K, V> {
+        &mut self.root
+    }
+}
